@@ -42,7 +42,7 @@ var (
 	c02AllOps   = []string{"read", "create", "update", "delete", "list", "patch", "scan"}
 	c02CapNames = []string{"read", "create", "update", "delete", "list", "patch", "scan", "sudo"}
 	// token states that must be seen refused although their policies would allow
-	c02DeadKinds = []string{"garbage", "flipped-char", "flipped-head", "flipped-mid", "flipped-tail", "truncated", "revoked", "expired", "exhausted", "cidr", "entity", "batch-flipped", "batch-expired", "batch-orphaned"}
+	c02DeadKinds = []string{"garbage", "flipped-char", "flipped-head", "flipped-mid", "flipped-tail", "truncated", "revoked", "expired", "exhausted", "cidr", "entity", "batch-flipped", "batch-expired", "batch-of-revoked-parent", "batch-of-revocation-interrupted-parent", "batch-of-expired-parent", "batch-of-expired-unreaped-parent"}
 )
 
 type c02Run struct {
@@ -57,6 +57,7 @@ type c02Run struct {
 	nreq    int
 	aborted bool
 	moves   int
+	pairs   int
 	sealed  bool
 }
 
@@ -241,6 +242,15 @@ func (x *c02Run) storageDigest() string {
 }
 
 func (x *c02Run) newTok(name, kind, ns string, data map[string]any, path string, parent string) *c02Tok {
+	t, why := x.tryTok(name, kind, ns, data, path, parent, "")
+	if t == nil {
+		x.t.Fatalf("verif: creating token %s (%s) in %q failed: %s", name, kind, ns, why)
+	}
+	return t
+}
+
+// tryTok creates a token through the API; nil + the refusal when the product refuses.
+func (x *c02Run) tryTok(name, kind, ns string, data map[string]any, path, parent, tag string) (*c02Tok, string) {
 	if data == nil {
 		data = map[string]any{}
 	}
@@ -256,10 +266,14 @@ func (x *c02Run) newTok(name, kind, ns string, data map[string]any, path string,
 	if parent == "" {
 		parent = x.v.Root
 	}
-	resp, err := x.v.Do(vReq{Op: logical.UpdateOperation, Path: path, Token: parent, Data: data, NS: ns})
+	resp, err := x.v.Do(vReq{Tag: tag, Op: logical.UpdateOperation, Path: path, Token: parent, Data: data, NS: ns})
 	after := time.Now()
 	if !vOK(resp, err) || resp == nil || resp.Auth == nil {
-		x.t.Fatalf("verif: creating token %s (%s) in %q failed: %s", name, kind, ns, vErrStr(resp, err))
+		why := vErrStr(resp, err)
+		if resp != nil && resp.IsError() {
+			why += " (" + resp.Error().Error() + ")"
+		}
+		return nil, why
 	}
 	t := &c02Tok{Name: name, Kind: kind, NS: ns, ID: resp.Auth.ClientToken, Accessor: resp.Auth.Accessor}
 	if ps, ok := data["policies"].([]string); ok {
@@ -270,7 +284,7 @@ func (x *c02Run) newTok(name, kind, ns string, data map[string]any, path string,
 		t.ExpireUpper = after.Add(resp.Auth.TTL + 300*time.Millisecond)
 	}
 	x.w.Toks = append(x.w.Toks, t)
-	return t
+	return t, ""
 }
 
 func c02Forge(base *c02Tok, name, kind, id string) *c02Tok {
@@ -460,6 +474,11 @@ func (x *c02Run) build() {
 		x.newTok(nsTag+"/expiring", "expired", ns, map[string]any{"policies": all, "ttl": "1s"}, "", "")
 		be := x.newTok(nsTag+"/bexpiring", "batch-expired", ns, map[string]any{"policies": all, "type": "batch", "ttl": "1s"}, "", "")
 		be.Batch = true
+		// batch tokens of service tokens in every state; tokens carrying this namespace's root policy
+		x.batchFamily(ns, nsTag, all)
+		if ns != "" {
+			x.nsRootTokens(ns, nsTag)
+		}
 	}
 	// forged variants of real admin / batch tokens
 	var forged []*c02Tok
@@ -724,6 +743,9 @@ type c02Outcome struct {
 	Writes   []string    `json:"tagged_writes"`
 	Changed  bool        `json:"mount_storage_changed"`
 	Carries  bool        `json:"response_carries_data_auth_secret_or_wrap"`
+	// ParentRecord: raw state of the record of the service token a batch token hangs off, read
+	// right before the request (evidence, not part of the verdict)
+	ParentRecord string `json:"parent_record_before_request,omitempty"`
 }
 
 // c02Bookkeeping: writes a refused request may make: the use-count update of its own
@@ -811,6 +833,16 @@ func (x *c02Run) check(q *c02Req, vd *c02Verdict, o *c02Outcome, stage string) b
 	x.nreq++
 	r.Eval(1)
 	bad := func(class, what string) bool {
+		if vd.Kind == "deny" && q.Tok != nil && !q.Tok.Forged {
+			switch {
+			case strings.HasPrefix(vd.Reason, "token:parent-") && (len(o.Handlers) > 0 || o.OK || o.Carries):
+				class = "C02-batch-token-accepted-while-parent-not-live"
+				what += fmt.Sprintf(" [batch token of parent %s; parent record before the request: %s]", c02TokName(q.Tok.ParentTok), o.ParentRecord)
+			case q.Tok.Root && q.Tok.NS != "" && strings.Contains(vd.Reason, "root policy of another namespace"):
+				class = "C02-namespace-root-policy-honoured-outside-its-subtree"
+				what += fmt.Sprintf(" [the token carries the root policy of namespace %q; the request resolves to namespace %q]", q.Tok.NS, vd.NS)
+			}
+		}
 		r.Violate(class, x.caseID, fmt.Sprintf("[%s %s] %s %s (header %q, token %s): %s; reference: %s (%s); observed: %s, %d handler event(s)",
 			x.caseID, stage, q.Op, q.Path, q.Header, c02TokName(q.Tok), what, vd.Kind, vd.Reason, o.Resp, len(o.Handlers)),
 			map[string]any{"request": q, "verdict": vd, "outcome": o, "stage": stage, "token_rules": x.rulesOf(q.Tok), "recent_steps": x.steps, "world": x.w})
@@ -818,6 +850,49 @@ func (x *c02Run) check(q *c02Req, vd *c02Verdict, o *c02Outcome, stage string) b
 		return false
 	}
 	r.Count("verdict:"+vd.Kind, 1)
+	early := strings.HasPrefix(vd.Reason, "early:") || vd.Reason == "sealed"
+	if t := q.Tok; t != nil && t.ParentTok != nil && !t.Forged && !early && !vd.Unauth {
+		r.Count("batch_judged:"+vd.TokState+":"+vd.Kind, 1)
+		if o.ParentRecord != "" {
+			r.Count("batch_parent_record:"+o.ParentRecord, 1)
+			if vd.Kind == "deny" && strings.HasPrefix(vd.Reason, "token:parent-") {
+				r.Count("batch_refused_while_parent_record:"+o.ParentRecord, 1)
+			}
+		}
+	}
+	if t := q.Tok; t != nil && t.Root && t.NS != "" && !t.Forged && !early {
+		rel := c02Related(t.NS, vd.NS)
+		if rel == "own-subtree" {
+			r.Count("nsroot_in_subtree:"+vd.Kind, 1)
+			if vd.Kind == "allow" && vd.Handler && len(o.Handlers) == 1 {
+				if vd.NS == t.NS {
+					r.Count("nsroot_in_own_namespace_handled", 1)
+				} else {
+					r.Count("nsroot_in_descendant_namespace_handled", 1)
+				}
+			}
+		} else {
+			r.Count("nsroot_outside_subtree:"+vd.Kind, 1)
+			if vd.Kind == "deny" {
+				on := "other"
+				relp := ""
+				if len(vd.Abs) >= len(vd.NS) {
+					relp = vd.Abs[len(vd.NS):]
+				}
+				switch {
+				case vd.Mount != nil && vd.Mount.Auth:
+					on = "auth"
+				case vd.Mount != nil:
+					on = "secrets"
+				case strings.HasPrefix(relp, "sys/"):
+					on = "sys"
+				}
+				r.Count("nsroot_outside_subtree_refused:"+rel, 1)
+				r.Count("nsroot_outside_subtree_refused_on:"+on, 1)
+				r.Nontrivial("nsroot|" + t.Name + "|" + rel + "|" + q.Op + "|" + vd.Abs)
+			}
+		}
+	}
 	if o.Exist > 0 && vd.Kind == "deny" {
 		r.Count("refused_after_existence_check", 1)
 	}
@@ -951,7 +1026,12 @@ func c02TokName(t *c02Tok) string {
 
 func (x *c02Run) do(q *c02Req, stage string) (*c02Verdict, bool) {
 	vd := x.w.judge(q, time.Now())
+	rec := ""
+	if q.Tok != nil && !q.Tok.Forged && q.Tok.ParentTok != nil {
+		rec = x.parentRecord(q.Tok.ParentTok)
+	}
 	o := x.exec(q)
+	o.ParentRecord = rec
 	x.step("%s %s %s hdr=%q tok=%s -> ref %s (%s) / %s h=%d", stage, q.Op, q.Path, q.Header, c02TokName(q.Tok), vd.Kind, vd.Reason, o.Resp, len(o.Handlers))
 	ok := x.check(q, vd, o, stage)
 	if ok && x.nreq%5 == 0 {
@@ -983,7 +1063,7 @@ func (x *c02Run) capabilities(q *c02Req, vd *c02Verdict) bool {
 	if !ok {
 		return true
 	}
-	resp, err := x.v.Do(vReq{Op: logical.UpdateOperation, Path: "sys/capabilities", Token: x.v.Root, NS: vd.NS, Data: map[string]any{"token": t.ID, "paths": []string{rel}}})
+	resp, err := x.v.Do(vReq{Tag: "cap", Op: logical.UpdateOperation, Path: "sys/capabilities", Token: x.v.Root, NS: vd.NS, Data: map[string]any{"token": t.ID, "paths": []string{rel}}})
 	if !vOK(resp, err) || resp == nil {
 		x.r.Count("capabilities_query_failed", 1)
 		return true
@@ -1020,6 +1100,7 @@ func (x *c02Run) mutate() {
 		apply func()
 		pol   *c02Policy
 		mnt   *c02Mount
+		prep  func() *c02Tok // creates the token the probe is issued with, once the candidate is chosen
 	}
 	var cs []cand
 	// policy changes
@@ -1102,6 +1183,55 @@ func (x *c02Run) mutate() {
 			}
 			t.Revoked = true
 			t.Kind = "revoked"
+		}})
+	}
+	// revocation of the service token a batch token hangs off, with and without a storage fault
+	{
+		var pairs []*c02Tok
+		for _, t := range w.Toks {
+			if p := t.ParentTok; p != nil && !t.Forged && p.Keys != nil && !p.Short && p.UsesMax == 0 {
+				if s, _ := t.liveness("", time.Now()); s == "live" {
+					pairs = append(pairs, t)
+				}
+			}
+		}
+		fl := kit.Pick(rng, c02Flows())
+		faulted := rng.Chance(2, 3)
+		name := "batch-parent-" + fl.name
+		if faulted {
+			name += "-faulted"
+		}
+		var child *c02Tok
+		cs = append(cs, cand{name: name, prep: func() *c02Tok {
+			if len(pairs) > 0 && rng.Chance(1, 2) {
+				child = kit.Pick(rng, pairs)
+			} else {
+				x.pairs++
+				ns := kit.Pick(rng, w.NSs)
+				p := x.newParent(fmt.Sprintf("m/bp%d", x.pairs), "live", ns, map[string]any{"policies": []string{"c02-all"}})
+				c, why := x.batchChild(fmt.Sprintf("m/bc%d", x.pairs), p, []string{"c02-all"})
+				if c == nil {
+					x.t.Fatalf("verif: batch child of a live parent refused: %s", why)
+				}
+				child = c
+			}
+			return child
+		}, apply: func() {
+			p := child.ParentTok
+			var f *c02Fault
+			if faulted {
+				f = x.arm(c02RevocationOps(p), 1+rng.Intn(26), rng.Chance(1, 8))
+			}
+			st := x.revokeAndClassify(fl, p, nil)
+			if f != nil {
+				f.disarm()
+				if f.fired.Load() > 0 {
+					x.r.Count("mutation_faults_fired", 1)
+					x.r.Count("mutation_parent_after_faulted_revocation:"+st, 1)
+					x.r.Count("mutation_parent_record_after_fault:"+x.parentRecord(p), 1)
+				}
+				x.step("fault in %s of %s: %s -> %s", fl.name, c02TokName(p), f.what(), st)
+			}
 		}})
 	}
 	// entity changes
@@ -1213,6 +1343,9 @@ func (x *c02Run) mutate() {
 		return
 	}
 	c := kit.Pick(rng, cs)
+	if c.prep != nil {
+		c.tok = c.prep()
+	}
 	var probe *c02Req
 	if strings.HasPrefix(c.name, "unmount") || strings.HasPrefix(c.name, "mount") || c.name == "remount" {
 		m := c.mnt
@@ -1232,6 +1365,8 @@ func (x *c02Run) mutate() {
 		if probe.Op == "update" {
 			probe.Data = map[string]any{"v": "x"}
 		}
+	} else if strings.HasPrefix(c.name, "batch-parent-") {
+		probe = x.dataProbe(c.tok, rng.Chance(1, 2))
 	} else {
 		probe = x.genReq(c.tok, true, c.pol)
 	}
@@ -1348,6 +1483,10 @@ func c02RunTopology(t *testing.T, r *kit.Result, seed int64, stream uint64, case
 	if x.aborted {
 		return
 	}
+	x.nsRootSweep("nsroot-sweep", 9)
+	if x.aborted {
+		return
+	}
 	// expired tokens: wait until the harness has seen the clock pass their expiry
 	var latest time.Time
 	var short []*c02Tok
@@ -1395,6 +1534,15 @@ func c02RunTopology(t *testing.T, r *kit.Result, seed int64, stream uint64, case
 	}
 	for i := 0; i < nreq/10+20 && !x.aborted && len(short) > 0; i++ {
 		x.do(x.genReq(kit.Pick(rng, short), true, nil), fmt.Sprintf("expired#%d", i))
+	}
+	// batch tokens: each one against the state of its parent (live, revoked, interrupted, expired, reaped or not)
+	for _, tk := range x.w.Toks {
+		if tk.ParentTok == nil || tk.Forged || x.aborted {
+			continue
+		}
+		x.do(x.dataProbe(tk, false), "batch-sweep")
+		x.do(x.dataProbe(tk, true), "batch-sweep")
+		x.do(x.genReq(tk, false, nil), "batch-sweep")
 	}
 	// every dead state at least a few directed requests
 	for _, tk := range x.w.Toks {
@@ -1446,6 +1594,25 @@ func TestVerif_C02_Requests(t *testing.T) {
 	for _, k := range c02DeadKinds {
 		r.Require("wouldallow_refused:"+k, 2)
 	}
+	r.Require("batch_judged:batch-of-live-parent:allow", int64(ntopo*10))
+	r.Require("batch_judged:batch-of-revoked-parent:deny", int64(ntopo*10))
+	r.Require("batch_judged:batch-of-revocation-interrupted-parent:deny", int64(ntopo*4))
+	r.Require("batch_judged:batch-of-expired-parent:deny", int64(ntopo*4))
+	r.Require("batch_judged:batch-of-expired-unreaped-parent:deny", int64(ntopo*4))
+	r.Require("batch_refused_while_parent_record:present-marked-revoked", int64(ntopo*2))
+	r.Require("batch_refused_while_parent_record:present-lease-expired", int64(ntopo))
+	r.Require("batch_refused_while_parent_record:absent", int64(ntopo*10))
+	r.Require("world_faults_fired", int64(ntopo*2))
+	r.Require("mutation_faults_fired", int64(ntopo))
+	r.Require("nsroot_outside_subtree:deny", int64(ntopo*40))
+	r.Require("nsroot_outside_subtree_refused:root-namespace", int64(ntopo*15))
+	r.Require("nsroot_outside_subtree_refused:ancestor", int64(ntopo*2))
+	r.Require("nsroot_outside_subtree_refused:sibling", int64(ntopo*5))
+	r.Require("nsroot_outside_subtree_refused_on:secrets", int64(ntopo*10))
+	r.Require("nsroot_outside_subtree_refused_on:auth", int64(ntopo*3))
+	r.Require("nsroot_outside_subtree_refused_on:sys", int64(ntopo*10))
+	r.Require("nsroot_in_own_namespace_handled", int64(ntopo*10))
+	r.Require("nsroot_in_descendant_namespace_handled", int64(ntopo*2))
 }
 
 // ---------------------------------------------------------------- configuration change || request
